@@ -1035,6 +1035,10 @@ func runC08(args []string) error {
 	}
 	for round := 0; round < opsRounds; round++ {
 		for sub := range c08Ops {
+			if c08Ops[sub].Skip != "" {
+				sm.count("skipped:" + c08Ops[sub].Name + " (" + c08Ops[sub].Skip + ")")
+				continue
+			}
 			c := sub + round + int(*seed)
 			p := mkParams(tplOps, goroutines[c%len(goroutines)])
 			p.Sub, p.SubName = sub, c08Ops[sub].Name
